@@ -42,10 +42,10 @@ fn run(input: RunInput) -> ScenFuture {
         cfg_l.max_connection_backoff_ms = Some(400);
         let mut cfg_d = base_config(20_000, Some(3_000));
         cfg_d.connect_timeout_ms = Some(1_500);
-        let l = w.start_node(w.spec(1, cfg_l), Svc::echo(&w)).unwrap();
+        let l = w.start_node(w.spec_exact(1, cfg_l), Svc::echo(&w)).unwrap();
         let mut dialers = Vec::new();
         for i in 0..n_dialers {
-            dialers.push(w.start_node(w.spec(i as u8 + 2, cfg_d.clone()), Svc::echo(&w)).unwrap());
+            dialers.push(w.start_node(w.spec_exact(i as u8 + 2, cfg_d.clone()), Svc::echo(&w)).unwrap());
         }
         let mut link = LinkCfg::clean(200, lat_max);
         if lossy {
